@@ -139,8 +139,8 @@ PROPS["C01"] = dict(
     units=[dict(template="units/delta.rs", slice=["*", "!RollingChecksum::roll", "!RollingChecksum::push", "!RollingChecksum::sum_*", "!RollingChecksum::len", "!RollingChecksum::is_empty", "!lemma_c17*", "!lemma_g_lit_identical"],
                 ignore_clauses={"::delta": [r"g_lit\("]})],
     twins=[
-        dict(name="signature_generate", repo_fn="src/signature.rs Signature::generate", quick=3, thorough=60,
-             contract="Ok ==> one entry per block, index j, weak == exact digest of block j, strong == BLAKE3(block j), file_size; both <=64KiB and >64KiB (rayon) paths, all 8 CLI block sizes"),
+        dict(name="signature_structure", repo_fn="src/signature.rs Signature::generate", quick=3, thorough=60,
+             contract="Ok ==> one entry per block in order: BlockSignature::compute(j, block j), file_size; both the <=64KiB and the >64KiB (rayon) path, all 8 CLI block sizes (for C01 the VALUE of the weak hash is irrelevant: every producer must agree)"),
         dict(name="signature_table", repo_fn="src/signature.rs SignatureTable", quick=3, thorough=60,
              contract="has_weak_match <=> some block has that weak hash; find_match == first block with that weak hash whose strong hash == BLAKE3(data), else None"),
         dict(name="engines_agree", repo_fn="src/async_sync.rs AsyncCopiaSync", quick=3, thorough=60,
